@@ -1067,12 +1067,6 @@ func isEmptyValue(v interface{}) bool {
 		return value == ""
 	case bool:
 		return !value
-	case int, int8, int16, int32, int64:
-		return value == 0
-	case uint, uint8, uint16, uint32, uint64:
-		return value == 0
-	case float32, float64:
-		return value == 0
 	case []interface{}:
 		return len(value) == 0
 	case map[string]interface{}:
@@ -1086,17 +1080,12 @@ func isEmptyValue(v interface{}) bool {
 		return rv.Len() == 0
 	case reflect.Bool:
 		return !rv.Bool()
-	case reflect.Int, reflect.Int8, reflect.Int16, reflect.Int32, reflect.Int64:
-		return rv.Int() == 0
-	case reflect.Uint, reflect.Uint8, reflect.Uint16, reflect.Uint32, reflect.Uint64:
-		return rv.Uint() == 0
-	case reflect.Float32, reflect.Float64:
-		return rv.Float() == 0
 	case reflect.String:
 		return rv.String() == ""
 	}
 
-	// Default behavior for other types
+	// Numbers are never empty: zero is a value like any other (the int case used to say empty while
+	// int64 and float64 zeros, compared with an untyped 0 through an interface, said not empty)
 	return false
 }
 
